@@ -124,6 +124,7 @@ def allMatches : (sig : List Dtype) → Trie → Tyvars → Option (List Match)
   | [], t, tv =>
       match t.data with
       | some (.tyvar n) => (tv.get n).map (fun r => [⟨[], r⟩])
+      | some (.list (.tyvar n)) => (tv.get n).map (fun r => [⟨[], .list r⟩])      -- `List(S)`: the variable one level down (repair of D86)
       | some d => some [⟨[], d⟩]
       | none => some []
   | a :: rest, t, tv => matchChildren t (allMatches rest) a tv t.children [] none
